@@ -351,3 +351,121 @@ def check_C08(run, replay):
     cases, rows = oracle_cases(run, "MC_CfrRun", "run", "run", n, "run")
     run.notes["run_classes"] = class_counts(rows)
     absorb(run, rows, cases, mismatch_sig("cfr-run"))
+
+
+def monitor(run, mode, n, name="monitor", extra=None):
+    """impl -> spec: record real solves, validate against Trace_Solve.tla"""
+    trace = run.path(name + ".ndjson")
+    args = ["record", "solve", "--mode", mode, "--seed", run.seed, "--n", n, "--out", trace]
+    if run.tier == "thorough":
+        args += ["--thorough", "1"]
+    if extra:
+        args += extra
+    out = harness(args, timeout=6000)
+    info = json.loads(out.strip().splitlines()[-1])
+    failed = [json.loads(l) for l in open(trace) if '"e":"failed"' in l]
+    for f in failed[:5]:
+        run.violation("solve:failed", {"event": f, "context": {"mode": mode, "seed": run.seed, "n": n}})
+    if failed:
+        # drop the failed events so that the rest of the trace is still validated
+        lines = [l for l in open(trace) if '"e":"failed"' not in l]
+        open(trace, "w").writelines(lines)
+    ok = validate_trace(run, "Trace_Solve", trace,
+                        lambda rec: "solve:%s:%s:%s" % (mode, (rec or {}).get("method", "?"), (rec or {}).get("preset", "?")),
+                        {"mode": mode, "seed": run.seed, "n": n}, timeout=6000)
+    run.traces += info["runs"]
+    run.evaluations += info["runs"]
+    with open(trace) as f:
+        for line in f:
+            if '"e":"run"' in line:
+                run.distinct.add(line)
+    run.notes[name] = {k: v for k, v in info.items() if k != "samples"}
+    for s in info["samples"]:
+        run.sample(s)
+    with open(trace) as f:
+        for line in f:
+            if '"e":"run"' in line:
+                run.sample(json.loads(line), limit=4)
+                break
+    return ok
+
+
+# ------------------------------------------------------------------------------------------ C02
+LEVELS["C02"] = "model_checking"
+
+
+def check_C02(run, replay):
+    run.rule = ("(a) exact: seeded small games, method Full, vanilla, budgets 1..3: TLC runs Cfr.tla exactly, checks "
+                "BoundDominates (total bound >= true total regret by brute-force best response) on each and the returned "
+                "strategies, bounds and get_info() of solve(Full,T,0,k in {1,2},vanilla) are compared with the exact values; "
+                "(b) monitor: real solves on U-zoo (kuhn, chains to depth 8, infoset shared by up to 16 nodes, 1:1000 chance, "
+                "dominated actions, flat payoffs, a player without decisions) and seeded games x budgets {1,4,25,100,400,2500"
+                "(,10000)} x threads {1,2,4(,3,8,16)} x thresholds just below / just above / three times each bound seen; "
+                "each run is an event validated by Trace_Solve.tla (bound >= regret in directed micro-units, non-negative, "
+                "total = max, early stop => regret < threshold); distinct = distinct run events")
+    run.assumptions = ["beyond T=3 the true regret is get_info() (validated exactly by C01 on the same kinds of games)",
+                       "micro-unit comparison is sound in the direction used (a true inequality is never reported false)"]
+    if replay:
+        d = replay_case(replay)
+        if "case" in d:
+            cases, rows = oracle_cases(run, "MC_CfrRun", "run", "run", 0, "exact", replay=d["case"])
+            absorb(run, rows, cases, mismatch_sig("cfr-run"))
+            return
+    n = 300 if run.tier == "quick" else 3000
+    cases, rows = oracle_cases(run, "MC_CfrRun", "run", "run", n, "exact", gen_extra=["--vanilla-full", "1"])
+    run.notes["exact_classes"] = class_counts(rows)
+    absorb(run, rows, cases, mismatch_sig("cfr-run"))
+    monitor(run, "c02", 12 if run.tier == "quick" else 150)
+
+
+# ------------------------------------------------------------------------------------------ C03
+LEVELS["C03"] = "exploration"
+
+
+def check_C03(run, replay):
+    run.rule = ("(a) exact: as C02 (a), TLC checks RateHolds (b^2 T <= 4 D^2 N^2 A per player) on exact bounds for T<=3; "
+                "(b) monitor: solve(Full, T, 0, k, preset) for the five presets x T in {1,4,25,100,400,2500(,10000)} x "
+                "k in {1(,4)} on U-zoo (adversarial families at full size) and seeded games; Trace_Solve.tla recomputes D, N, A "
+                "from the raw tree and checks the vanilla per-player envelope 2DN sqrt(A)/sqrt(T) on the bounds and the "
+                "preset envelope 6DN(sqrt(A)+1/sqrt(T))/sqrt(T) on the true regret; non-trivial = every run; distinct = "
+                "distinct run events")
+    run.assumptions = ["true regret = get_info() (C01)", "finite envelopes at the listed budgets stand in for 'tends to zero'"]
+    n = 300 if run.tier == "quick" else 3000
+    cases, rows = oracle_cases(run, "MC_CfrRun", "run", "run", n, "exact", gen_extra=["--vanilla-full", "1"])
+    absorb(run, rows, cases, mismatch_sig("cfr-run"))
+    monitor(run, "c03", 15 if run.tier == "quick" else 300)
+    run.states = run.states  # model states are reported inside coverage notes for this exploration-level check
+    run.notes["tlc_states"] = run.states
+
+
+# ------------------------------------------------------------------------------------------ C04
+LEVELS["C04"] = "exploration"
+
+
+def check_C04(run, replay):
+    run.rule = ("(a) lemma: TLC checks Unbiased (MC_Unbiased.tla) exactly on seeded (game, current profile) cases: the "
+                "expectation over all chance outcomes (and opponent actions) of the sampled regret increments equals the "
+                "unsampled counterfactual increments, for chance sampling and for external sampling of either player; "
+                "(b) monitor: solve({Sampled,External}, T in {100,2500}, k in {1,2(,8)}, presets) under seeded replayable "
+                "draws on U-zoo and seeded games; Trace_Solve.tla checks regret <= D N sqrt(A)/sqrt(T) per run and the corpus "
+                "statistics (most games below 1% of the payoff range at T=2500 and at most half of their T=100 value); "
+                "distinct = distinct run events")
+    run.assumptions = ["statistical property: seeds and corpus are fixed; the unchanged code passes the envelope with a "
+                       "measured margin of about 20x (DESIGN 4 C04)", "true regret = get_info() (C01)",
+                       "games in which a chance infoset repeats on one path are excluded from the lemma and the corpus "
+                       "(the draws there are perfectly correlated by design of the sampler; see known findings)"]
+    n = 300 if run.tier == "quick" else 3000
+    cases_path = run.path("lemma.ndjson")
+    harness(["gen", "step", "--seed", run.seed, "--n", n, "--out", cases_path])
+    res = tlc("MC_Unbiased", env={"CASES": cases_path}, timeout=3000)
+    run.add_tlc(res)
+    st = {}
+    for _, v in res.out("OUT"):
+        st[v["status"]] = st.get(v["status"], 0) + 1
+    run.notes["lemma_cases"] = st
+    run.evaluations += len(res.out("OUT"))
+    for k, (_, v) in enumerate(res.out("OUT")):
+        if v["status"] == "ok":
+            run.distinct.add("lemma-%d" % k)
+    monitor(run, "c04", 15 if run.tier == "quick" else 200)
+    run.notes["tlc_states"] = run.states
